@@ -43,9 +43,11 @@ RULE = ('scales: DEFAULT_SCALE and scales whose four base units are those of DEF
         '(class, operation, problem, scale) hashes')
 NOTE = ('theorems are about the Lean models; the horizontal operators are abstract (laws = named hypotheses validated '
         'here), log/exp are external (the additive constant of ln p_s is a parameter c; exp c = wP in the Held-Suarez '
-        'theorems over the reals), numpy.linalg.inv is external (InvScaled/ConstMode validated here); T12.2 is proved for '
-        'a K-module of states with an affine state action (the list-based State of the model is a module only for a '
-        'fixed shape). Tolerances: explicit/implicit terms agree to <= 1e-13 over all measured scales (products of '
+        'theorems over the reals), numpy.linalg.inv is external (InvScaled/ConstMode validated here); T12.2 is proved '
+        'abstractly (K-module of states, or any +/0/scalar-action with the affine law on the proper states) and '
+        'instantiated for the four primitive-equation classes on tree_math vectors (schemes, histories with filters, '
+        'leapfrog); for shallow water and Held-Suarez the step theorem applies through the abstract form only. '
+        'Tolerances: explicit/implicit terms agree to <= 1e-13 over all measured scales (products of '
         'powers of the unit ratios commute with every operation up to one rounding each), tolerance 1e-10; '
         'implicit_inverse inherits the rounding error of numpy.linalg.inv on S M S^-1, which is not invariant under '
         'the diagonal similarity S (measured up to 3e-10 for wide scales): its tolerance is an a-posteriori bound '
@@ -311,6 +313,14 @@ def _hypotheses(ctx, env):
                    f'{name} does not scale like radius^-1', inp)
       ctx.expect(g1.cos_lat.tolist() == g2.cos_lat.tolist() and rel(g1.sec2_lat, g2.sec2_lat) == 0,
                  'OpsScaled.tables', 'nodal tables depend on the radius', inp)
+      # FilterScaled: the step filters leave the constant mode alone (factor exactly 1 at total wavenumber 0)
+      from dinosaur import filtering
+      for fname, flt in (('exponential', filtering.exponential_filter(g1, float(rng.uniform(1, 30)), 3, 0.3)),
+                         ('diffusion', filtering.horizontal_diffusion_filter(g1, float(rng.uniform(0.01, 1)), 2))):
+        ctx.expect(np.abs(np.asarray(flt(J(7.5 * one))) - 7.5 * one).max() == 0.0, 'FilterScaled.const-mode',
+                   f'{fname} filter changes the constant mode', inp)
+        ctx.expect(rel(flt(J(k * x)), k * np.asarray(flt(J(x)))) < HYP_TOL, 'FilterScaled.smul',
+                   f'{fname} filter is not homogeneous', inp)
       # HorizScaled.lsp: adding c * (pure constant mode) adds c at every node
       c = float(rng.uniform(-40, 40))
       nod = np.asarray(g1.to_nodal(J(x + c * one))) - np.asarray(g1.to_nodal(J(x)))
@@ -550,6 +560,105 @@ def _shallow_water(ctx, env, stats):
             ctx.notes.append(note)
 
 
+
+def _state_factories(ctx, env, stats):
+  """primitive_equations_states: the test-case initial states must describe the same SI state under every scale."""
+  from dinosaur import primitive_equations_states as pes
+  from dinosaur import xarray_utils
+  rng, u = ctx.rng, env.units
+  du = env.default_units()
+  n = int(rng.choice([3, 4, 6]))
+  b, _ = dinoutil.random_boundaries(rng, n)
+  M = int(rng.choice([5, 6]))
+  c = R.si_constants(rng, earth=bool(rng.random() < 0.5))
+  prob = dict(M=M, boundaries=b.tolist(), const=c)
+  height = None
+  kinds = ['wide', 'wide', 'moderate'] if ctx.quick else ['wide'] * 5 + ['moderate'] * 2
+  bases = [('default', du)] + [(k, _rand_base(rng, du, k)) for k in kinds]
+  p1 = float(rng.uniform(0, 500))
+  ref = None
+  for kname, base in bases:
+    inp = dict(cls='primitive_equations_states', scale=base, ratio=_ratio_str(base, du), const=c, boundaries=b.tolist(), M=M)
+    with ctx.impl('state-factories:exception', inp):
+      sc = env.scale(base)
+      specs = R.specs_of(env, prob, sc)
+      grid = env.grid(M, specs.radius)
+      coords = env.cs.CoordinateSystem(grid, env.sc.SigmaCoordinates(b))
+      if height is None:
+        lon, sin_lat = grid.nodal_mesh
+        height = 800. * np.exp(-((lon - 2.0) ** 2 + (np.arcsin(sin_lat) - 0.5) ** 2) / 0.3)
+      dim = specs.dimensionalize
+      ln_unit = float(np.log(specs.nondimensionalize(1.0 * u.pascal)))
+
+      def si_state(x):
+        out = dict(vorticity=np.asarray(dim(np.asarray(x.vorticity), u('1/s')).magnitude),
+                   divergence=np.asarray(dim(np.asarray(x.divergence), u('1/s')).magnitude),
+                   temperature_variation=np.asarray(dim(np.asarray(x.temperature_variation), u.degK).magnitude))
+        out['ln_ps_nodal'] = np.asarray(grid.to_nodal(env.jnp.asarray(x.log_surface_pressure))) - ln_unit
+        return out
+
+      res = {}
+      fn, aux = pes.steady_state_jw(coords, specs)
+      res['jw'] = si_state(fn())
+      res['jw.aux'] = dict(orography=np.asarray(dim(np.asarray(aux[xarray_utils.OROGRAPHY]), u.m).magnitude),
+                           geopotential=np.asarray(dim(np.asarray(aux[xarray_utils.GEOPOTENTIAL_KEY]), u('m**2/s**2')).magnitude),
+                           ref_temperature=np.asarray(dim(np.asarray(aux[xarray_utils.REF_TEMP_KEY]), u.degK).magnitude))
+      pert = pes.baroclinic_perturbation_jw(coords, specs)
+      res['jw.perturbation'] = dict(vorticity=np.asarray(dim(np.asarray(pert.vorticity), u('1/s')).magnitude),
+                                    divergence=np.asarray(dim(np.asarray(pert.divergence), u('1/s')).magnitude))
+      fn2, aux2 = pes.isothermal_rest_atmosphere(coords, specs, p1=p1 * u.pascal, surface_height=height * u.m)
+      res['rest'] = si_state(fn2(env.jax.random.PRNGKey(3)))
+      res['rest.aux'] = dict(orography=np.asarray(dim(np.asarray(aux2[xarray_utils.OROGRAPHY]), u.m).magnitude),
+                             ref_temperature=np.asarray(dim(np.asarray(aux2[xarray_utils.REF_TEMP_KEY]), u.degK).magnitude))
+      res['gaussian'] = dict(q=np.asarray(pes.gaussian_scalar(coords, specs)))
+      if kname == 'default':
+        ref = res
+        continue
+      for name in res:
+        ctx.case(('factory', name, tuple(base), M, n), nontrivial=True, sample=dict(factory=name, ratio=inp['ratio']))
+        e = _check_terms(ctx, ref[name], res[name], f'primitive_equations_states:{name}',
+                         f'initial state {name} under two scales', dict(factory=name, **inp), TOL_TERMS)
+        stats['factories'] = max(stats.get('factories', 0.0), e)
+
+
+
+def _radiation(ctx, env, stats):
+  """radiation.SolarRadiation: incident flux in W/m^2 at the same SI time does not depend on the scale."""
+  import datetime
+  from dinosaur import radiation
+  rng, u = ctx.rng, env.units
+  du = env.default_units()
+  b = np.array([0, 0.5, 1.0])
+  prob = dict(M=5, boundaries=b.tolist(), const=R.si_constants(rng, earth=True))
+  when = datetime.datetime(2000 + int(rng.integers(0, 20)), int(rng.integers(1, 13)), int(rng.integers(1, 28)),
+                           int(rng.integers(0, 24)))
+  times = rng.uniform(0, 1e7, 4)
+  later = when + datetime.timedelta(days=float(rng.uniform(1, 300)))
+  kinds = ['wide', 'moderate'] if ctx.quick else ['wide'] * 4 + ['moderate'] * 2
+  bases = [('default', du)] + [(k, _rand_base(rng, du, k)) for k in kinds]
+  ref = None
+  for kname, base in bases:
+    inp = dict(cls='SolarRadiation', scale=base, ratio=_ratio_str(base, du), reference=str(when), times=times.tolist())
+    with ctx.impl('SolarRadiation:exception', inp):
+      specs = R.specs_of(env, prob, env.scale(base))
+      grid = env.grid(5, specs.radius)
+      coords = env.cs.CoordinateSystem(grid, env.sc.SigmaCoordinates(b))
+      sr = radiation.SolarRadiation(coords, specs, when)
+      srn = radiation.SolarRadiation.normalized(coords, specs, when)
+      res = {}
+      for i, t_si in enumerate(times):
+        t = float(specs.nondimensionalize(t_si * u.s))
+        res[f'flux{i}'] = np.asarray(specs.dimensionalize(np.asarray(sr.radiation_flux(t)), u('W/m**2')).magnitude)
+        res[f'normalized{i}'] = np.asarray(srn.radiation_flux(t))
+      res['datetime_to_time'] = np.asarray([specs.dimensionalize(sr.datetime_to_time(later), u.s).magnitude])
+      if kname == 'default':
+        ref = res
+        continue
+      ctx.case(('radiation', tuple(base), str(when)), nontrivial=True, sample=dict(cls='SolarRadiation', ratio=inp['ratio']))
+      e = _check_terms(ctx, ref, res, 'SolarRadiation:flux', 'SolarRadiation under two scales', inp, 10 * TOL_TERMS)
+      stats['radiation'] = max(stats.get('radiation', 0.0), e)
+
+
 # --------------------------------------------------------------------------
 # (c) static pass
 
@@ -578,6 +687,7 @@ def run(ctx: common.Ctx):
                         'DinoProofs/Lemmas/ScalingTerms.lean', 'DinoProofs/Lemmas/ScalingMoist.lean',
                         'DinoProofs/Lemmas/ScalingInv.lean', 'DinoProofs/Lemmas/ScalingSW.lean',
                         'DinoProofs/Lemmas/ScalingHS.lean', 'DinoProofs/Lemmas/ScalingStep.lean',
+                        'DinoProofs/Lemmas/ScalingTraj.lean',
                         'Dino/Scaling.lean', 'Dino/ScalingDrv.lean'])
 
   import time
@@ -594,7 +704,7 @@ def run(ctx: common.Ctx):
   stats = {}
   classes = [('PrimitiveEquations', False, False), ('PrimitiveEquationsWithTime', False, True),
              ('MoistPrimitiveEquations', True, True), ('MoistPrimitiveEquationsWithCloudMoisture', True, True)]
-  reps = ctx.n(2, 4)
+  reps = ctx.n(2, 10)
   for rep in range(reps):
     for ci, (cls, moist, with_time) in enumerate(classes):
       t0 = time.time()
@@ -606,6 +716,11 @@ def run(ctx: common.Ctx):
     t0 = time.time()
     _shallow_water(ctx, env, stats)
     tm['ShallowWater'] = tm.get('ShallowWater', 0.0) + time.time() - t0
+    if rep == 0 or not ctx.quick:
+      t0 = time.time()
+      _state_factories(ctx, env, stats)
+      _radiation(ctx, env, stats)
+      tm['factories'] = tm.get('factories', 0.0) + time.time() - t0
   ctx.notes.append('seconds: ' + ', '.join(f'{k}={v:.0f}' for k, v in tm.items()))
   ctx.notes.append('largest measured differences: ' + ', '.join(f'{k}={v:.2e}' for k, v in sorted(stats.items())))
 
